@@ -238,6 +238,12 @@ def run_model(lines):
     return model, spec
 
 
+def untag(model_out):
+    """The model marks a known-defective branch with a site tag (` #D-15`); the tag is not part
+    of the result the implementation is compared with."""
+    return re.sub(r"\s*#D-[0-9a-z]+", "", model_out)
+
+
 def spec_match(spec, impl):
     """spec: '?' = no opinion; alternatives separated by ' || '; '*' matches one token;
     a trailing '**' matches any remaining tokens."""
@@ -462,7 +468,7 @@ def run_check(prop, tier, seed):
             classes[k] = classes.get(k, 0) + 1
             if not prop.trivial(l, impl[i]):
                 nontrivial.add(l)
-            if ok_drv and impl[i] != model[i]:
+            if ok_drv and impl[i] != untag(model[i]):
                 corr_bad.append(i)
             if not spec_match(spec[i], impl[i]):
                 spec_bad.append(i)
@@ -484,7 +490,7 @@ def run_check(prop, tier, seed):
     reported = set()
     for i in spec_bad:
         f = finding_for(prop.id, lines[i], model[i] if model else "", findings)
-        if f is not None and impl[i] == model[i]:
+        if f is not None and impl[i] == untag(model[i]):
             key = f["key"]
             if key not in reported:
                 reported.add(key)
@@ -504,7 +510,7 @@ def run_check(prop, tier, seed):
         im = prop.project(small, run_impl([small])[0])
         mo, sp = (run_model([small]) if ok_drv else (["?"], ["?"]))
         f2 = finding_for(prop.id, small, mo[0], findings)
-        if f2 is not None and im == mo[0]:
+        if f2 is not None and im == untag(mo[0]):
             if f2["key"] not in reported:
                 reported.add(f2["key"])
                 known.append((f2, small))
@@ -603,7 +609,7 @@ def replay(path, props):
         if not spec_match(sp[0], im):
             print("VIOLATION property=%s replay=%s" % (pid, path))
             rc = 1
-        elif im != mo[0]:
+        elif im != untag(mo[0]):
             print("implementation and model differ (correspondence), specification satisfied")
     else:
         print(json.dumps(data, indent=1))
